@@ -21,8 +21,10 @@ TUseSeqs == UseSeqsUpTo(3)
 (* repeated imports: the last occurrence of a type import decides *)
 Q2UseSeqs == [1..3 -> {<<"ty", "a">>, <<"ty", "b">>, <<"mod", "a">>}]
 NoPerts == {"none"}
+OrderPerts == {"none", "mmid", "mlast"}
 AllDefSets == SUBSET {"m", "a", "b", "n"}
-QPerts == {"none", "addtype", "addvft", "othername", "addmod", "addfirst", "shadowown", "enclosing", "shadowmod", "rawtwin", "dotdir"}
+QPerts == {"none", "addtype", "addvft", "othername", "addmod", "addfirst", "shadowown", "enclosing", "shadowmod", "rawtwin", "dotdir",
+           "mmid", "mlast"}   \* the same modules, m added after a (and before b) / last
 
 (* where the name may be defined, and the size it has there *)
 Places == <<"m", "a", "b", "n">>
@@ -56,7 +58,9 @@ MkInput(ptr, name, defs, uses, pert) ==
                                     \o (IF "n" \in defs THEN <<Field("own", "pub", <<>>, TNm(name), None, FALSE)>> ELSE <<>>))
                EXCEPT !.packed = TRUE]
       mm == [Module(<<"m">>, [i \in DOMAIN uses |-> UsePath(name, uses[i])], own("m") \o <<Own, R2>>)
-               EXCEPT !.impls = <<Impl("R", <<g>>)>>]
+               EXCEPT !.impls = <<Impl("R", <<g>>)>>,
+                      (* an extern value mentions the name too: its accessor type reveals the binding *)
+                      !.evals = <<ExtVal("gx", "pub", TCPtr(TNm(name)), 8192)>>]
       ma == Module(<<"a">>, <<>>, own("a") \o (IF pert = "othername" THEN <<DefOf("Other", "b")>> ELSE <<>>)
                                   \o (IF pert = "shadowown" THEN <<[Own EXCEPT !.fields[1].ty = TArr(TNm("u8"), 8)]>> ELSE <<>>)
                                   \o (IF pert = "enclosing" THEN <<W(2)>> ELSE <<>>)
@@ -73,6 +77,8 @@ MkInput(ptr, name, defs, uses, pert) ==
                  [] pert = "addfirst" -> <<mz>> \o base
                  [] pert = "rawtwin" -> base \o <<mraw>>
                  [] pert = "dotdir" -> <<mdot>> \o base
+                 [] pert = "mmid" -> <<ma, mm, mb, mn>>
+                 [] pert = "mlast" -> <<ma, mb, mn, mm>>
                  [] OTHER -> base]
 
 BaseOf(inp) == MkInput(inp.gen.ptr, inp.gen.name, inp.gen.defs, inp.gen.uses, "none")
@@ -97,6 +103,9 @@ SizeOfPath(p) ==   \* the declared size of the definition at p (built-ins by tab
 
 BuiltinSizeOf(n) == Builtins[CHOOSE i \in DOMAIN Builtins : Builtins[i][1] = n][2]
 
+MFile(files) == CHOOSE f \in files : f.path = <<"m">>
+NFile(files) == CHOOSE f \in files : f.path = <<"a", "n">>
+
 Inv_C11 ==
   Terminal =>
     /\ Accepted <=> Bound # <<>>
@@ -108,9 +117,7 @@ Inv_C11 ==
          IN /\ r.fields[1].ty = want
             /\ reg[<<"m", "R">>].res.size = wsize + 3
             /\ g.args[2].ty = RCPtr(want) /\ g.ret = RMPtr(want)
-
-MFile(files) == CHOOSE f \in files : f.path = <<"m">>
-NFile(files) == CHOOSE f \in files : f.path = <<"a", "n">>
+            /\ \E i \in DOMAIN MFile(out).evals : MFile(out).evals[i].name = "gx" /\ MFile(out).evals[i].ty = RCPtr(want)
 
 (* the perturbations leave everything m reaches untouched; those that do not add to module b *)
 (* (which a::n imports) leave a::n's reach untouched as well                                  *)
